@@ -508,7 +508,7 @@ func (t *ftr) assign(s *ast.AssignStmt, ind string) string {
 				t.tmpN++
 				tmps = append(tmps, t.fresh(fmt.Sprintf("t%d", t.tmpN)))
 			}
-			pre += ind + "let* '(" + strings.Join(tmps, ", ") + ") := " + term + " in\n"
+			pre += ind + "let* (" + strings.Join(tmps, ", ") + ") := " + term + " in\n"
 			for i, l := range s.Lhs {
 				pre += t.bindLhs(l, tmps[i], ind, define)
 			}
